@@ -25,8 +25,26 @@ horizontal / vertical; dyadic and non-dyadic spacing), node sets on the fracture
 (non-uniform, non-nested), reversed node order; every sequence of up to 3 replacements from a menu of
 mortar (both sides / one side / different sides), secondary and primary replacements.
 
-Detection power (scratch copy of /repo/src, POREPY_SRC=<copy>, quick tier; each run exited 1 with VIOLATION):
-  (filled in after the mutation runs)
+Detection power (scratch copy of /repo/src with the candidate defect below repaired so that the baseline exits 0,
+POREPY_SRC=<copy>, quick tier; every mutant run exited 1 with VIOLATION lines):
+  M1 mortar_grid._set_projections: ``_mortar_to_primary_int`` built from ``_primary_to_mortar_int.T`` (avg/int mixed up)
+       caught by "transposition: mortar_to_primary_int == primary_to_mortar_avg^T", "mortar_to_primary_int: unit column sums"
+  M2 mortar_grid.update_secondary: ``_set_projections(primary=False)`` -> ``(secondary=False)`` (stale transposes)
+       caught by "shapes: projections have the sizes of the current grids" / transposition clauses
+  M3 match_grids.match_1d: averaged / integrated normalisations swapped
+       caught by all eight sum clauses, "match_1d: weights equal the exact overlap fractions"
+  M4 mortar_grid.update_primary: ``_primary_to_mortar_avg * split_matrix_int``
+       caught by "primary_to_mortar_avg: unit row sums", "mortar_to_primary_int: unit column sums", exact-overlap clause
+  M5 match_grids.match_grids_along_1d_mortar: positive/negative side of the new grid swapped (``both_sides_new[::-1]``)
+       sums and transposes are unaffected; caught only by "primary_to_mortar_{int,avg}: exact overlap fractions on the mortar's side"
+
+Candidate defect of the unchanged tree found by this check (kept strict; reported to the lead):
+  update_primary (replace_subdomains_and_interfaces with a new 2-D grid) when some primary face carries weight in several
+  mortar cells beforehand (mortar finer than / not nested in the primary faces, e.g. after update_mortar with a 3-cell
+  mortar over 2 faces, or after replacing the primary by a coarser one): match_grids_along_1d_mortar takes the old
+  fracture faces from the non-zeros of _primary_to_mortar_int without uniquifying them, so every such face is counted
+  once per mortar cell and the primary projections come out multiplied by that multiplicity (row/column sums 2 instead
+  of 1).  signature "update_primary, some face coupled to several mortar cells".
 """
 from __future__ import annotations
 
